@@ -82,8 +82,44 @@ def eq_pairs(f):
     return out
 
 
+def r_checksum_nonzero(prog, rep):
+    r = rep.rule("R-CHECKSUM-NONZERO",
+                 "FileChecksum::getChecksumForPath hands out the all-zero checksum only for a missing path: on every path to the return on which the "
+                 "object exists, the result's bytes are written from a digest or given a non-zero marker.  (In checksum-only mode device, inode and "
+                 "time are zeroed and equality ignores the mode: a zero-sized existing object with the all-zero checksum *is* the missing record.)", floor=1)
+    f = prog.fn("FileChecksum::getChecksumForPath")
+    rets = [n for n in f.nodes if n.get("k") == "return" and "e" in n]
+    names = set(expr_str(core(n.child("e"))) for n in rets)
+    if len(names) != 1:
+        raise AnalysisBroken("getChecksumForPath returns %s" % sorted(names))
+    res = names.pop()
+    nonzero = set()
+    for n in f.nodes:
+        if n.get("k") == "bin" and n["op"] in ("=", "|=") and expr_str(n.child("l")).startswith(res + ".bytes[") and \
+                core(n.child("r")) is not None and core(n.child("r")).get("k") == "int" and core(n.child("r")).get("v"):
+            nonzero.add(cfg.pos_of(f, n))
+        if n.get("k") == "call" and (n.get("fn") or "").split("::")[-1] == "copy" and any(expr_str(core(a)) == res + ".bytes" for a in arg_nodes(n)):
+            nonzero.add(cfg.pos_of(f, n))
+    miss = [a for b in f.blocks.values() if b.effective_cond() is not None for a, _p in cfg.cond_atoms(b.effective_cond(), True) if "isMissing" in a]
+    if not nonzero or not miss:
+        raise AnalysisBroken("getChecksumForPath: %d digest/marker writes, %d missing tests" % (len(nonzero), len(miss)))
+    w = cfg.path_exists_feasible(f, cfg.entry_pos(f), lambda p, e: e == "EXIT", avoid=lambda p, e: p in nonzero,
+                                 infeasible=lambda a, p: ("isMissing" in a) and p)
+    where = None
+    if w is not None:
+        # name the last branch the witness path took
+        for b in reversed(w):
+            c = f.blocks[b].effective_cond()
+            if c is not None:
+                where = c
+                break
+    r.check(w is None, "getChecksumForPath|zero-only-when-missing", "%d digest/marker writes" % len(nonzero),
+            "an existing object can get the all-zero checksum reserved for a missing path (path through `%s`)" % (expr_str(where)[:60] if where is not None else "?"), f, where)
+
+
 def run(ctx):
     prog, rep = ctx.prog, ctx.report
+    r_checksum_nonzero(prog, rep)
 
     r = rep.rule("R-FI-EQ", "equality of FileInfo / FileTimestamp / FileChecksum compares each listed field with the same field of rhs and nothing "
                             "is left out; != is the negation of ==", floor=8)
@@ -374,4 +410,12 @@ VARIANTS = [
          expect=("R-FS-WRAPPERS", "ChecksumOnlyFileSystem::getFileInfo")),
     dict(name="benign-eq-reordered", file="include/llbuild/Basic/FileInfo.h", old="    return (device == rhs.device &&\n            inode == rhs.inode &&",
          new="    return (rhs.inode == inode &&\n            device == rhs.device &&", expect=None),
+    dict(name="failed-digest-gets-missing-checksum", file="lib/Basic/FileInfo.cpp", old="      memset(result.bytes, 0, sizeof(result.bytes));\n      result.bytes[0] = 2;", new="      memset(result.bytes, 0, sizeof(result.bytes));",
+         expect=("R-CHECKSUM-NONZERO", "zero-only-when-missing")),
+    dict(name="empty-file-gets-missing-checksum", file="lib/Basic/FileInfo.cpp", old="  } else if (fileInfo.isDirectory()) {\n    result.bytes[0] = 1;", new="  } else if (fileInfo.size == 0) {\n    memset(result.bytes, 0, sizeof(result.bytes));\n  } else if (fileInfo.isDirectory()) {\n    result.bytes[0] = 1;",
+         expect=("R-CHECKSUM-NONZERO", "zero-only-when-missing")),
+    dict(name="directory-marker-dropped", file="lib/Basic/FileInfo.cpp", old="  } else if (fileInfo.isDirectory()) {\n    result.bytes[0] = 1;", new="  } else if (fileInfo.isDirectory()) {\n    result.bytes[0] = 0;",
+         expect=("R-CHECKSUM-NONZERO", "zero-only-when-missing")),
+    dict(name="benign-checksum-early-return-for-missing", file="lib/Basic/FileInfo.cpp", old="  if (fileInfo.isMissing()) {\n    memset(result.bytes, 0, sizeof(result.bytes));\n  } else if (fileInfo.isDirectory()) {",
+         new="  memset(result.bytes, 0, sizeof(result.bytes));\n  if (fileInfo.isMissing())\n    return result;\n  if (fileInfo.isDirectory()) {", expect=None),
 ]
